@@ -37,6 +37,11 @@ pub struct ShutdownScript {
     /// the task handling it keeps its copy of the topic's registration sender
     #[serde(default)]
     pub inflight_registration: bool,
+    /// C10 at the client: a standby library replier with a retry budget registers while the topic
+    /// is bound, keeps being refused (a retryable bind error, with its backoff), and must take over
+    /// once the bound replier has left
+    #[serde(default)]
+    pub standby_replier: bool,
 }
 
 pub fn gen_script(rng: &mut Rng) -> ShutdownScript {
@@ -51,6 +56,7 @@ pub fn gen_script(rng: &mut Rng) -> ShutdownScript {
         lonely: (0..rng.usize(0, 3)).map(|_| rng.below(3) as u8).collect(),
         second_replier: rng.chance(1, 2),
         inflight_registration: rng.chance(1, 3),
+        standby_replier: rng.chance(1, 2),
     }
 }
 
@@ -61,6 +67,7 @@ pub struct Report {
     pub received: Vec<Vec<usize>>,
     pub second_replier: Option<String>,
     pub rebind_ok: Option<bool>,
+    pub standby_ok: Option<bool>,
     pub notes: Vec<String>,
 }
 
@@ -120,7 +127,38 @@ async fn scenario(world: Rc<World>, sc: ShutdownScript) -> AResult<Report> {
             let _ = r.listen().await;
         }));
         tokio::time::sleep(Duration::from_millis(300)).await;
-        if t == 0 && sc.second_replier {
+        if t == 0 && !sc.second_replier && sc.standby_replier {
+            // 40 attempts, 300 ms apart: 12 virtual seconds of patience
+            let gs = world.new_group();
+            let w = world.clone();
+            let standby_client = ACTOR.scope(gs, async move { w.client(BackoffStrategy::constant().with_step(Duration::from_millis(300)).with_max_attempts(40)).await }).await?;
+            let mut rs = ACTOR.scope(gs, standby_client.replier(&topic).with_request_decoder(StringCodec).with_reply_encoder(StringCodec).with_handler(|q: String| async move { Ok::<_, anyhow::Error>(format!("standby:{q}")) }).open()).await?;
+            let note = Rc::new(RefCell::new(None));
+            let n2 = note.clone();
+            tokio::task::spawn_local(ACTOR.scope(gs, async move {
+                let _keep = standby_client;
+                let r = rs.listen().await;
+                *n2.borrow_mut() = Some(format!("{:?}", r.map_err(|e| e.to_string())));
+            }));
+            // refused a few times while the first replier is bound
+            tokio::time::sleep(Duration::from_millis(2_000)).await;
+            first_replier.abort();
+            let mut q = ACTOR.scope(g2, c2.requestor(&topic).with_request_encoder(StringCodec).with_reply_decoder(StringCodec).with_request_timeout(Duration::from_secs(1))?.open()).await?;
+            let mut ok = false;
+            for i in 0..8 {
+                if let Ok(ans) = ACTOR.scope(g2, q.request(format!("s{i}"))).await {
+                    ok = ans == format!("standby:s{i}");
+                    if ok {
+                        break;
+                    }
+                }
+                tokio::time::sleep(Duration::from_millis(500)).await;
+            }
+            rep.standby_ok = Some(ok);
+            if !ok {
+                rep.notes.push(format!("standby replier ended with {:?}", note.borrow()));
+            }
+        } else if t == 0 && sc.second_replier {
             // C10 smoke: a second replier on the bound topic must surface the bind error
             let mut r2 = ACTOR.scope(g, a.replier(&topic).with_request_decoder(StringCodec).with_reply_encoder(StringCodec).with_handler(|q: String| async move { Ok::<_, anyhow::Error>(format!("second:{q}")) }).open()).await?;
             let res = tokio::time::timeout(Duration::from_secs(10), ACTOR.scope(g, r2.listen())).await;
@@ -251,6 +289,12 @@ pub fn execute(prop: &str, sc: &ShutdownScript, opts: &ExecOpts) -> Outcome {
                     if rep.rebind_ok == Some(true) {
                         out.probe("rebind_served");
                     }
+                    if rep.standby_ok == Some(false) && sc.net.loss_ppm == 0 {
+                        out.violate(prop, "standby-replier-did-not-take-over", "client", format!("a library replier with 40 attempts 300 ms apart was standing by on a bound topic; the bound replier left after 2 s and the standby did not serve requests within 8 s ({:?})", rep.notes));
+                    }
+                    if rep.standby_ok == Some(true) {
+                        out.probe("standby_replier_took_over");
+                    }
                     out.fault("graceful_shutdown_under_traffic");
                     out.nontrivial = sc.n_pubsub_topics + sc.n_reqrep_topics + sc.lonely.len() > 0;
                     out.steps = rep.sent.iter().sum::<usize>() as u64;
@@ -312,6 +356,11 @@ impl Family for ShutdownFamily {
         if !sc.lonely.is_empty() {
             let mut c = sc.clone();
             c.lonely.pop();
+            out.push(c);
+        }
+        if sc.standby_replier {
+            let mut c = sc.clone();
+            c.standby_replier = false;
             out.push(c);
         }
         if sc.second_replier {
